@@ -472,3 +472,37 @@ func rewriteAst(rng *rand.Rand, cfg gen.Config) *gen.Node {
 	gen.AvoidKnownFindings(root)
 	return root
 }
+
+// engCorpus: the minimised witnesses of every engine defect found so far (known_findings.json,
+// "fixed" entries). They run first in every engine oracle leg, so a regression of one of those
+// repairs is reported with its original replay.
+var engCorpus = func() []engCase {
+	R := func(s string) []rune { return []rune(s) }
+	rtl, re2, ci, sl, n := int32(regexp2.RightToLeft), int32(regexp2.RE2), int32(regexp2.IgnoreCase), int32(regexp2.Singleline), int32(regexp2.ExplicitCapture)
+	cs := []engCase{
+		{Pattern: `(?:ab*){2}`, Text: R("abab")},
+		{Pattern: `\G{2}abc`, Text: R("xxabc")},
+		{Pattern: `(?:xx|.a)`, Text: R("c\nxx1 c")},
+		{Pattern: `(?:bc|.bc)`, Text: R("bcx")},
+		{Pattern: `(?:xa)*?.`, Text: R("x _ A")},
+		{Pattern: `([ab]*)[bc]*c\1`, Text: R("abbca")},
+		{Pattern: `(?(?!-)(?:c?|\S)|\b)__`, Text: R("b__")},
+		{Pattern: `\D|.z`, Opts: re2, Text: R("xy")},
+		{Pattern: `(?:A|\D|B)*x`, Opts: re2, Text: R("ABx")},
+		{Pattern: `a\x{FFFD}`, Text: R("xa\ufffdy"), RawHex: "7861ff79"},
+		{Pattern: `([a-b]) [^a-c]`, Opts: n, CodeGen: true, Text: R("a \n")},
+		{Pattern: `(?>[12a]+?[^12a]*)\d?cAa.`, Opts: ci, Text: R("ca2ac1cAA\U0001F600")},
+		{Pattern: "a\u0391a+", Opts: rtl, Text: R("xa\u0391aa"), Start: 5},
+		{Pattern: `.*(?:[b-c]){1,3}?[a-c](?>\D{0,}?)[\wa-c]`, Opts: sl, Text: R("Abccbc\u00e9"), Start: 3},
+		{Pattern: `(a)bx|(a)cy|(a)bz`, Text: R("acy")},
+		{Pattern: `(a)bcx|(a)bdy|(a)bcz`, Text: R("abdy")},
+		{Pattern: `(?=.*(?<a>x))(?<b-a>y)\k<b>`, Text: R("y.x")},
+		{Pattern: `a*`, Opts: rtl, Text: R("baa"), Start: 3},
+		{Pattern: `[a-z-[b]]`, Opts: ci, Text: R("B")},
+		{Pattern: `[\W\d]`, Text: R("5")},
+	}
+	for i := range cs {
+		cs[i].Source = "corpus"
+	}
+	return cs
+}()
